@@ -104,7 +104,8 @@ def total(data, multiple):
             continue
         except Exception as e:  # noqa: BLE001
             return ("walk", e)
-        for w in walked:
+        # serialising every walked component costs (number of components) x (size of its subtree): bound the harness's own work
+        for w in (walked if len(walked) <= 200 else walked[:100] + walked[-100:]):
             try:
                 w.to_ical()
             except ValueError:
@@ -485,7 +486,7 @@ def hostile_cases(draw, only=None):
         lines = ["BEGIN:VCALENDAR", "BEGIN:VFREEBUSY", f"FREEBUSY:{a}/{b}", "END:VFREEBUSY", "BEGIN:VEVENT", f"RDATE;VALUE=PERIOD:{a}/{b}",
                  f"RDATE:{a}/{b},{b}/{a}", "END:VEVENT", "END:VCALENDAR"]
     else:
-        d = draw(st.sampled_from([1, 8, 33, 64, 120, 1000, 1000]))
+        d = draw(st.sampled_from([1, 8, 33, 64, 120, 300, 1000]))
         name = draw(st.sampled_from(["VEVENT", "VCALENDAR", "X-A", "VTIMEZONE", "VALARM"]))
         unbalanced = draw(st.sampled_from([0, 0, 1, -1]))
         lines = [f"BEGIN:{name}"] * d + ["SUMMARY:deep"] + [f"END:{name}"] * max(0, d + unbalanced)
